@@ -1673,6 +1673,11 @@ func (b *RaftBackend) Get(ctx context.Context, path string) (*physical.Entry, er
 // or if the call to applyLog fails.
 func (b *RaftBackend) Put(ctx context.Context, entry *physical.Entry) error {
 	defer metrics.MeasureSince([]string{"raft-storage", "put"}, time.Now())
+	if len(entry.Key) == 0 {
+		// bbolt refuses the empty key; failing to apply a committed log
+		// entry is fatal to the FSM, so refuse it before it is appended.
+		return errors.New("put failed due to key being empty")
+	}
 	if len(entry.Key) > bolt.MaxKeySize {
 		return fmt.Errorf("%s, max key size for integrated storage is %d", physical.ErrKeyTooLarge, bolt.MaxKeySize)
 	}
